@@ -30,7 +30,10 @@ RULE = (
 REQUIRED = {"configurations_compared": 28, "digest_fields_compared": 300,
             "configurations_where_seed_matters": 20}
 TIMEOUT = {"quick": 1700, "thorough": 7000}
-ASSUMPTIONS = ["the environment (and its action-space sampler) is seeded by the "
+ASSUMPTIONS = ["np.empty is replaced by a version that fills the (unspecified) "
+               "memory with a run-dependent value, so reads of uninitialised "
+               "memory become visible as non-determinism",
+               "the environment (and its action-space sampler) is seeded by the "
                "harness before the call, as the statement requires",
                "XLA CPU with one intra-op thread"]
 
